@@ -100,7 +100,10 @@ def gen_tag(rng):
 
 def gen_refline(rng):
     size = rng.choice([0, 1, 1234, 2**31, 2**32 - 1, 2**32, 2**32 + 5, 2**63, 2**64 - 1, 2**64])
-    name = rng.choice([b"refs/heads/main", b"refs/tags/v1", b"refs/x/\xff\xfe", b"refs/heads/a\tb", b"HEAD"])
+    name = rng.choice([b"refs/heads/main", b"refs/tags/v1", b"refs/x/\xff\xfe", b"refs/heads/a\tb", b"HEAD",
+                       # names that end in, or consist of, what a trimming function would take for white space
+                       b"refs/heads/main\xc2\xa0", b"refs/heads/rel\xe3\x80\x80", b"refs/tags/v1\xe2\x80\xa8", b"refs/heads/x\xc2\x85", b"refs/heads/cr\r",
+                       b"refs/heads/tab\t", b"\xc2\xa0refs/heads/lead", b"refs/heads/ff\x0c", b"refs/heads/vt\x0b", b"\t", b"\xe1\x9a\x80"])
     typ = rng.choice([b"commit", b"tag", b"tree", b"blob"])
     return hexoid(rng) + b" " + typ + b" " + str(size).encode() + b" " + name
 
